@@ -733,6 +733,20 @@ func gen(r *rand.Rand, tier string) []string {
 		}
 	}
 
+	// M2. grpc/json at the boundary of its token limit (a line of `len` bytes is handed out iff len < limit; the line of
+	// entry 0 has 59 bytes + padding, one more with CRLF): one byte below / at / above maxammosize and the default 64 KiB
+	for _, lim := range []int{5000, 65536, 70001} {
+		mas := lim
+		if lim == 65536 {
+			mas = 0
+		}
+		for d := -2; d <= 1; d++ {
+			for _, eol := range []int{0, 1, 2} {
+				add(cell{v: variant{c08cell.KGRPCJSON, false}, passes: 2, n: 2, cons: 1, cap: 7, big: lim - 59 + d, bigat: 1 + (d+2)%2, mas: mas, eol: eol})
+			}
+		}
+	}
+
 	// G. random larger cells, all modes
 	extra := 400
 	maxN, maxL, maxP = 12, 30, 6
